@@ -16,15 +16,6 @@ RECURSIVE GcdxLoop(_,_,_,_,_,_)
 GcdxLoop(a, an, r, rn, s, sn) ==
    IF an = 0 THEN <<a, r, s, rn, sn>>
    ELSE LET q == Quot(a, an) IN GcdxLoop(an, a - q * an, rn, r - q * rn, sn, s - q * sn)
-\* Rust's truncating division: Quot above is truncation toward zero for either sign of p only
-\* when a >= 0; use an explicit truncating quotient
-TQuot(a, b) == LET q == Abs(a) \div Abs(b) IN IF (a < 0) = (b < 0) THEN q ELSE -q
-RECURSIVE GcdxT(_,_,_,_,_,_)
-GcdxT(a, an, r, rn, s, sn) ==
-   IF an = 0 THEN <<a, r, s, rn, sn>>
-   ELSE LET q == TQuot(a, an) IN GcdxT(an, a - q * an, rn, r - q * rn, sn, s - q * sn)
-Gcdx(a, b) == GcdxT(a, b, 1, 0, 0, 1)
-TRem(a, b) == a - TQuot(a, b) * b
 
 Pivot(A, st) ==   \* position of a non-zero entry of least absolute value in A[st.., st..], row-major first
    LET cand == {p \in (st..NR(A)) \X (st..NC(A)) : A[p[1]][p[2]] # 0} IN
